@@ -40,7 +40,9 @@ type Row struct {
 		Ids  string   `json:"ids"`
 		Act  string   `json:"act"`
 	} `json:"wire"`
-	Status int `json:"status"`
+	Status int      `json:"status"`
+	Req    envelope `json:"req"`
+	Resp   envelope `json:"resp"`
 	Cfg    struct {
 		Threshold int    `json:"threshold"`
 		Strict    bool   `json:"strict"`
@@ -48,6 +50,65 @@ type Row struct {
 		Mount     string `json:"mount"`
 		Text      int    `json:"text"`
 	} `json:"cfg"`
+}
+
+// envelope is one row of Call.tla's envelope table
+type envelope struct {
+	Kinds    []string `json:"kinds"`
+	Required []string `json:"required"`
+	Allowed  []string `json:"allowed"`
+}
+
+// conforms decides whether a body has one of the admitted shapes; "entity" and "params" are any JSON object (their
+// content is the codec's business), "object" is an object with exactly the required and at most the allowed members
+func (e envelope) conforms(body string) string {
+	has := func(k string) bool {
+		for _, x := range e.Kinds {
+			if x == k {
+				return true
+			}
+		}
+		return false
+	}
+	if len(e.Kinds) == 0 {
+		return ""
+	}
+	if strings.TrimSpace(body) == "" {
+		if has("none") {
+			return ""
+		}
+		return "no body, the protocol prescribes one of " + fmt.Sprint(e.Kinds)
+	}
+	var v any
+	dec := json.NewDecoder(strings.NewReader(body))
+	if err := dec.Decode(&v); err != nil || dec.More() {
+		return "body is not one JSON document: " + body
+	}
+	m, ok := v.(map[string]any)
+	if !ok {
+		return "body is not a JSON object: " + body
+	}
+	if has("entity") || has("params") {
+		return ""
+	}
+	if !has("object") {
+		return "a body where the protocol prescribes none: " + body
+	}
+	for _, r := range e.Required {
+		if _, ok := m[r]; !ok {
+			return fmt.Sprintf("member %q missing from %s", r, body)
+		}
+	}
+	for k := range m {
+		ok := false
+		for _, a := range e.Allowed {
+			ok = ok || a == k
+		}
+		if !ok {
+			return fmt.Sprintf("member %q is not part of the envelope (%v): %s", k, e.Allowed, body)
+		}
+	}
+	return ""
 }
 
 var texts = []string{"plain", "a/b?c#d&e=f;g", "(a:b,c)'List(x)", "100%25% +", "", "é日🕴"}
@@ -97,10 +158,15 @@ func (g *gen) value(t reflect.Type, path string) reflect.Value {
 	return v
 }
 
+// currentResource is the resource of the call being replayed: which Ent fields are annotated depends on it
+var currentResource string
+
 func isExcludedEntField(path string) bool {
 	switch path {
 	case "Ent.Id", "Ent.Created", "Ent.Nested.B", "Ent.Tags[].B":
 		return true
+	case "Ent.Nested":
+		return currentResource == "collRO" // the whole record-typed field is read-only there
 	}
 	return false
 }
@@ -316,6 +382,7 @@ func show(v reflect.Value) string {
 // ---- transport: in-process, recording
 type wireRec struct {
 	verb, path, rawQuery, methodHdr, override, ctype, body string
+	protoReq, protoResp, respBody, idHdr                   string
 	status                                                 int
 	errHdr                                                 bool
 }
@@ -331,7 +398,8 @@ func (t *transport) RoundTrip(req *http.Request) (*http.Response, error) {
 		body, _ = io.ReadAll(req.Body)
 	}
 	*t.rec = wireRec{verb: req.Method, path: req.URL.EscapedPath(), rawQuery: req.URL.RawQuery, methodHdr: req.Header.Get("X-RestLi-Method"),
-		override: req.Header.Get("X-HTTP-Method-Override"), ctype: req.Header.Get("Content-Type"), body: string(body)}
+		override: req.Header.Get("X-HTTP-Method-Override"), ctype: req.Header.Get("Content-Type"), body: string(body),
+		protoReq: req.Header.Get("X-RestLi-Protocol-Version")}
 	sreq := httptest.NewRequest(req.Method, req.URL.RequestURI(), bytes.NewReader(body))
 	sreq.Header = req.Header.Clone()
 	sreq.Host = req.URL.Host
@@ -341,6 +409,11 @@ func (t *transport) RoundTrip(req *http.Request) (*http.Response, error) {
 	res.Request = req
 	t.rec.status = res.StatusCode
 	t.rec.errHdr = res.Header.Get("X-RestLi-Error-Response") != ""
+	t.rec.protoResp = res.Header.Get("X-RestLi-Protocol-Version")
+	t.rec.idHdr = res.Header.Get("X-RestLi-Id")
+	rb, _ := io.ReadAll(res.Body)
+	res.Body = io.NopCloser(bytes.NewReader(rb))
+	t.rec.respBody = string(rb)
 	return res, nil
 }
 
@@ -427,6 +500,7 @@ func main() {
 			continue
 		}
 		argGen := &gen{text: text, noExcl: true}
+		currentResource = row.Node
 		batchMode = (row.Cfg.Text + row.Cfg.Threshold) % 3
 		var args []reflect.Value
 		for i := 0; i < m.Type().NumIn(); i++ {
@@ -447,6 +521,24 @@ func main() {
 			continue
 		}
 		cs["wire"] = fmt.Sprintf("%s %s?%s [%s] -> %d", rec.verb, rec.path, rec.rawQuery, rec.methodHdr, rec.status)
+		if rec.status >= 200 && rec.status < 300 {
+			// envelopes (C03, last clause): headers and the shape of both bodies, as the protocol table prescribes
+			if rec.protoReq != "2.0.0" || rec.protoResp != "2.0.0" {
+				violation("C03/envelope/protocol-version-header/"+row.Method, fmt.Sprintf("X-RestLi-Protocol-Version: request %q, response %q", rec.protoReq, rec.protoResp), cs)
+			}
+			if rec.override == "" {
+				if why := row.Req.conforms(rec.body); why != "" {
+					violation("C03/envelope/request/"+row.Method, "request body: "+why, cs)
+				}
+			}
+			if why := row.Resp.conforms(rec.respBody); why != "" {
+				violation("C03/envelope/response/"+row.Method, "response body: "+why, cs)
+			}
+			if row.Method == "create" && rec.idHdr == "" {
+				violation("C03/envelope/response/create-id-header", "a create was answered without X-RestLi-Id", cs)
+			}
+			stats["envelopes_checked"]++
+		}
 		var callErr error
 		if e := rets[len(rets)-1]; !e.IsNil() {
 			callErr = e.Interface().(error)
@@ -619,6 +711,15 @@ func scripted(g *gen, t reflect.Type, args []reflect.Value) reflect.Value {
 		}
 	}
 	zero(v)
+	// collection results: in one mode out of three the implementation returns no paging information at all (elements and,
+	// for finders with metadata, the metadata must still arrive)
+	if batchMode == 2 {
+		if e := v; e.Kind() == reflect.Ptr && !e.IsNil() && e.Elem().Kind() == reflect.Struct {
+			if f := e.Elem().FieldByName("Paging"); f.IsValid() && f.Kind() == reflect.Ptr && f.CanSet() {
+				f.Set(reflect.Zero(f.Type()))
+			}
+		}
+	}
 	return v
 }
 
